@@ -105,6 +105,7 @@ Section Calls.
   Hypothesis Hag : view_agree vp vv.
   Hypothesis Hds : Forall good_comp ds.
   Hypothesis Hchain : dir_chain (f_heap s) (v_user vp) (v_root vp) ds (v_root vv).
+  Hypothesis Hroot : perm_on (f_heap s) (v_root vp) OpenLookup (v_user vp) = true.
 
   Definition okpath (ps : list str) : Prop :=
     Forall good_comp ps /\ ps <> [] /\ symfree_walk (f_heap s) (v_root vv) ps
